@@ -60,6 +60,11 @@ def run_seq(z, queries):
                     o += ",%d" % _td_us(f(dt))
                 except Exception as ex:
                     o += ",!" + exc_kind(ex)
+            try:
+                n = z.tzname(dt)
+                o += "," + ("-" if n is None else n)
+            except Exception as ex:
+                o += ",!" + exc_kind(ex)
             outs.append(o)
         except Exception as ex:
             outs.append("!" + exc_kind(ex))
@@ -82,7 +87,7 @@ def synthetic_zone(rng):
         rs = rrule.rruleset()
         for o in ons:
             rs.rdate(o)
-        comps.append(tz.tz._tzicalvtzcomp(ofrom, oto, isdst, tzname="C%d" % i, rrule=rs))
+        comps.append(tz.tz._tzicalvtzcomp(ofrom, oto, isdst, tzname="%d/%d/%d" % (ofrom, oto, int(isdst)), rrule=rs))
         wire.append("%d,%d,%d,%s" % (ofrom, oto, int(isdst), ilist([us_of(o) // US for o in ons])))
         points += ons
     return (lambda: tz.tz._tzicalvtz("syn", [tz.tz._tzicalvtzcomp(int(c.tzoffsetfrom.total_seconds()), int(c.tzoffsetto.total_seconds()),
@@ -129,7 +134,10 @@ def validate_ical(ctx, mod):
                     for d in (-3600, -1, 0, 1800, 3600):
                         cand.append((us_of(tu + datetime.timedelta(seconds=off + d)) + rng.choice([0, 0, 1, 999999]), rng.randint(0, 1)))
         seq = [rng.choice(cand) for _ in range(25)]
-        reqs.append("tzgen.ical.seq %s %s" % (cw, ";".join("%d:%d" % q for q in seq))); exp.append(run_seq(mod.load(text).get(), seq))
+        z2 = mod.load(text).get()
+        for c in z2._comps:
+            c.tzname = _comp_str(c)
+        reqs.append("tzgen.ical.seq %s %s" % (cw, ";".join("%d:%d" % q for q in seq))); exp.append(run_seq(z2, seq))
     _compare(ctx, reqs, exp, "tzobj_translator_validation_requests")
 
 
